@@ -17,7 +17,7 @@ chk.extra['rule'] = ('grammar-directed generator of whole .ff/.itp/.map/.mapping
                      'a "!" marker or repeated target, a "$" respectively; distinct = distinct protocol line')
 quiet_vermouth_logs()
 TABLES = c13_extract.extract()
-chk.lean(['VermouthProps.C13', 'VermouthProps.C13Tables'], 'driver_c13',
+chk.lean(['VermouthProps.C13', 'VermouthProps.C13Tables', 'VermouthProps.C13Maps'], 'driver_c13',
          generated={'C13Tables.lean': c13_extract.render(TABLES)})
 
 import vermouth
